@@ -258,6 +258,10 @@ class Geo:
         args = [self._ev(a.value if isinstance(a, ast.Starred) else a)
                 for a in e.args]
         kw = {k.arg: k.value for k in e.keywords}
+        # arguments of package functions count however they are passed
+        if cn in self.summ or cn.split(".")[-1] in self.summ:
+            args += [self._ev(k.value) for k in e.keywords
+                     if k.arg not in ("out", "axis", "dtype")]
         out_name = norm(kw["out"]) if "out" in kw else None
         res: K | None = None
         short = cn.split(".")[-1]
